@@ -1,3 +1,4 @@
+import TantivyModel.Proofs.SSTable.StoreFile
 import TantivyModel.Proofs.SSTable.SearchOrd
 import TantivyModel.Proofs.SSTable.ValueFile
 import TantivyModel.Proofs.SSTable.StoreGroup
@@ -853,6 +854,25 @@ theorem C15_store_block_get_tail (rs rb os ob : Nat) (ref : BlockAddr) (more : L
 example : (groupMeta 100 5 10 3 ⟨7, 1000, 1090⟩ [⟨16, 1090, 1200⟩, ⟨27, 1200, 1310⟩]).get
       (bitPack (groupFields 100 5 10 3 ⟨7, 1000, 1090⟩ [⟨16, 1090, 1200⟩, ⟨27, 1200, 1310⟩] 1310) ++ [255, 255, 255]) 2
     = some ⟨27, 1200, 1310⟩ := by decide
+
+/-- the whole block-address store, bytes included: `BlockAddrStoreWriter::serialize`
+(`u64 len | 36-byte metadata records with running offsets | packed store blocks`) read by
+`BlockAddrStore::open` + `get` (`block_id / STORE_BLOCK_LEN` selects the record,
+`block_id % STORE_BLOCK_LEN` the address): every address of every store block comes back, for any
+number of store blocks — given that the deviations fit the widths (`GroupFits`) and the record
+fields fit their integer types (`MetaFits`) -/
+theorem C15_store_get (gs : List GroupSpec) (k i : Nat) (g : GroupSpec) (hk : gs[k]? = some g)
+    (hsize : META_SIZE * gs.length < 2 ^ 64)
+    (hfit : GroupFits g.rs g.rb g.os g.ob g.ref g.more g.lastStop)
+    (hmeta : MetaFits g (offsetOf gs k)) (hi : i ≤ g.more.length) (hB : i < Gen.STORE_BLOCK_LEN) :
+    (openStore (storeBytes gs)).get (k * Gen.STORE_BLOCK_LEN + i)
+      = some ⟨((g.ref :: g.more).getD i g.ref).firstOrd, ((g.ref :: g.more).getD i g.ref).start,
+              startAt g.more g.lastStop i⟩ :=
+  store_get gs k i g hk hsize hfit hmeta hi hB
+
+example : (openStore (storeBytes [⟨100, 5, 10, 3, ⟨0, 0, 90⟩, [⟨9, 90, 200⟩], 200⟩,
+      ⟨100, 5, 10, 3, ⟨20, 200, 310⟩, [⟨29, 310, 400⟩, ⟨40, 400, 500⟩], 500⟩])).get (1 * Gen.STORE_BLOCK_LEN + 2)
+    = some ⟨40, 400, 500⟩ := by decide
 
 /-! ## insertion order (DESIGN §8, F6) -/
 
